@@ -1,0 +1,47 @@
+//go:build verif
+
+// Package verifhook provides yield points for the external verification harness.
+// Without the `verif` build tag all of its functions are empty and get inlined away.
+package verifhook
+
+import "sync/atomic"
+
+var handler atomic.Pointer[func(point string, key string)]
+
+// SetHandler installs the function that is called at every yield point
+func SetHandler(h func(point string, key string)) {
+	if h == nil {
+		handler.Store(nil)
+
+		return
+	}
+
+	handler.Store(&h)
+}
+
+// At marks a yield point
+func At(point string, key string) {
+	if h := handler.Load(); h != nil {
+		(*h)(point, key)
+	}
+}
+
+var objHandler atomic.Pointer[func(kind string, v any)]
+
+// SetObjHandler installs the function that internal objects are announced to
+func SetObjHandler(h func(kind string, v any)) {
+	if h == nil {
+		objHandler.Store(nil)
+
+		return
+	}
+
+	objHandler.Store(&h)
+}
+
+// Obj announces an internal object to the harness
+func Obj(kind string, v any) {
+	if h := objHandler.Load(); h != nil {
+		(*h)(kind, v)
+	}
+}
